@@ -25,7 +25,11 @@ class CompositedCacheMixin:
     #
 
     def _remove_cached(self, names):
-        self._merged_solvers = {k: v for k, v in self._merged_solvers.items() if not k & names}
+        # a cached solver was merged from every child that is connected to the names it was requested for, so it is
+        # outdated as soon as any of *its* variables changes, not only one of the names in its key
+        self._merged_solvers = {
+            k: v for k, v in self._merged_solvers.items() if not k & names and not v.variables & names
+        }
 
     def _solver_for_names(self, names):
         n = frozenset(names)
